@@ -10,11 +10,13 @@ import (
 	"os"
 	"path/filepath"
 	"strings"
+	"time"
 
 	"github.com/canopy-network/canopy/bft"
 	"github.com/canopy-network/canopy/controller"
 	"github.com/canopy-network/canopy/fsm"
 	"github.com/canopy-network/canopy/lib"
+	"github.com/canopy-network/canopy/lib/crypto"
 	"github.com/canopy-network/canopy/store"
 	"google.golang.org/protobuf/encoding/protowire"
 )
@@ -125,6 +127,10 @@ func tune(n *node) {
 	for _, cfg := range []*lib.Config{&n.c.FSM.Config, &n.c.Config, &n.c.Mempool.FSM.Config} {
 		cfg.InitialTokensPerBlock, cfg.BlocksPerHalvening = 1000, 10
 	}
+	// the node is in normal operation (not in a chain halt): governance proposals are decided by the operator's approve list
+	if n.c.Consensus != nil {
+		n.c.Consensus.VerifSetProposalVoteDeadline(time.Now().Add(time.Hour))
+	}
 }
 
 // nonCanonical re-encodes a transaction: an explicit zero-valued field appended (proto3 would omit it)
@@ -141,6 +147,20 @@ type multiSim struct {
 	nodes map[string]*node
 	dirs  []string
 	sim   *ledgerSim // op -> tx helper bound to node A
+	// governance proposals the operators of ALL nodes put on their approve list (proposals.json in each data directory)
+	approved map[string]json.RawMessage
+}
+
+// approve puts a proposal transaction on the approve list of every node
+func (m *multiSim) approve(txHash string) {
+	if m.approved == nil {
+		m.approved = map[string]json.RawMessage{}
+	}
+	m.approved[txHash] = json.RawMessage(`{"proposal":{},"approve":true}`)
+	bz, _ := json.Marshal(m.approved)
+	for _, n := range m.nodes {
+		_ = os.WriteFile(filepath.Join(n.dir, lib.ProposalsFilePath), bz, 0o644)
+	}
 }
 
 func (m *multiSim) close() {
@@ -249,6 +269,9 @@ func (m *multiSim) oneHeight() (ok bool) {
 		if tx, e := fsm.NewChangeParamTxUint64(A.accKeys[m.rng.Intn(len(A.accKeys))], fsm.ParamSpaceVal, fsm.ParamUnstakingBlocks, val, 1, 5000, 1, 1, 20000, h, ""); e == nil {
 			bz, _ := lib.Marshal(tx)
 			raws = append(raws, bz)
+			if m.rng.Intn(4) != 0 { // mostly approved by the operators: the change is then decided by the parameter check alone
+				m.approve(crypto.HashString(bz))
+			}
 			if os.Getenv("NODEX_DEBUG") != "" {
 				fmt.Fprintf(os.Stderr, "param tx at height %d value %d: mempool says %v\n", h, val, A.c.Mempool.HandleTransactions(bz))
 			}
